@@ -111,7 +111,7 @@ fn node_of(arg: &str) -> Option<(String, String, u64)> {
 fn gen(rng: &mut Rng) -> Opts {
   // URL forms on which `Url` normalisation is the identity (assumption recorded in evidence)
   let urls = ["http://tracker.example/announce", "https://t.example:8443/a/b", "udp://1.2.3.4:6969/announce", "udp://[2001:db8::1]:80/x", "wss://t.example/ws", "http://t.example/a?x=1&y=2", "http://t.example/p%20q"];
-  let texts = ["hello", "two words", "ünï cödé 日本", "a&b=c", "", "tab\there", "quote\"s", "back\\slash", "😀"];
+  let texts = ["hello", "two words", "ünï cödé 日本", "a&b=c", "", "tab\there", "quote\"s", "back\\slash", "😀", " PTP ", "TAG\n", "  ", "\u{1b}[31mred", "4:info", "d4:infodee"];
   let nodes = ["router.example.com:6881", "x.org:0", "1.2.3.4:65535", "203.0.113.7:1", "[2001:db8::1]:80", "[::1]:7", "[::ffff:1.2.3.4]:9", "[2001:db8:85a3::8a2e:370:7334]:443"];
   let mut o = Opts::default();
   // the default name is the last component of the input path exactly as it is: dots, spaces and all
@@ -137,7 +137,7 @@ fn gen(rng: &mut Rng) -> Opts {
     o.update_url = pick(rng, &urls);
   }
   if rng.chance(1, 3) {
-    o.name = pick(rng, &["renamed", "n m", "ü", "a&b"]);
+    o.name = pick(rng, &["renamed", "n m", "ü", "a&b", "Artist/Album", "x/", " padded ", "4:info", "name.with.dots"]);
   }
   o.p = *rng.pick(&[1u64, 7, 64, 1000, 16384, 32768, 1 << 20]);
   o.private = rng.chance(1, 3);
@@ -150,11 +150,11 @@ fn gen(rng: &mut Rng) -> Opts {
   if o.single {
     o.files.push((String::new(), rng.bytes_upto(200)));
   } else {
-    let names = ["a", "b", "c/d", "c/e", "z z", "ü"];
+    let names = ["a", "b", "c/d", "c/e", "z z", "ü", "README", "readme", "Dir/x", "dir/x", "empty"];
     let mut idx: Vec<usize> = (0..names.len()).collect();
     rng.shuffle(&mut idx);
-    for i in idx.into_iter().take(rng.below(5) as usize) {
-      o.files.push((names[i].to_string(), rng.bytes_upto(120)));
+    for i in idx.into_iter().take(rng.below(6) as usize) {
+      o.files.push((names[i].to_string(), if names[i] == "empty" { vec![] } else { rng.bytes_upto(120) }));
     }
   }
   o
@@ -194,7 +194,15 @@ fn observe(ctx: &Ctx, o: &Opts) -> Obs {
   materialise(&sb, o, &format!("run1/{}", o.input()), false);
   if o.overwrite {
     // a longer file from an earlier run is in the way
-    sb.write("run1/o.torrent", &b"d7:comment5:stale4:infod6:lengthi0eee".repeat(200));
+    if o.p % 2 == 0 {
+      sb.write("run1/o.torrent", &b"d7:comment5:stale4:infod6:lengthi0eee".repeat(200));
+    } else {
+      // what is in the way is an earlier torrent of the very same content, made without the other options: the new
+      // one must replace it all the same
+      let mut bare = Opts { p: o.p, md5: o.md5, single: o.single, files: o.files.clone(), input_name: o.input_name.clone(), name: o.name.clone(), source: o.source.clone(), private: o.private, update_url: o.update_url.clone(), ..Default::default() };
+      bare.no_creation_date = true;
+      let _ = Cmd::args_owned(&ctx.imdl, bare.args(o.input(), "o.torrent")).cwd(&sb.path("run1")).run();
+    }
   }
   // the creation date is an instant, not a wall-clock reading: the local time zone must not matter
   // (zone names need the system's tz database, POSIX strings do not)
